@@ -22,6 +22,43 @@ func Run(c *common.Ctx) error {
 	}
 	cf := c.Cases("cases_c03", hist.CoqHeader, hist.CoqType, "mismatches")
 	cf.Shard = 3
+	// fixed scripts first: the shapes the property names that a short random history rarely composes
+	scripts := [][]hist.Step{
+		// a generation writes pages 5 and 6; complete checkpoint; restart WITHOUT truncating the file; the new
+		// generation overwrites the old frames' offsets with other pages; then the database shrinks below 5
+		{{Op: "rtx", Writes: map[uint32]uint64{1: 1, 2: 2, 3: 3, 4: 4}, NewSize: 4, ToWAL: true},
+			{Op: "wtx", Frames: [][2]uint64{{5, 15}, {6, 16}}, NewSize: 6},
+			{Op: "appckpt", CkptMode: 2},
+			{Op: "wtx", Frames: [][2]uint64{{2, 22}, {3, 23}, {1, 21}}, NewSize: 6},
+			{Op: "wtx", Frames: [][2]uint64{{1, 31}}, NewSize: 4},
+			{Op: "wtx", Frames: [][2]uint64{{4, 44}}, NewSize: 4}},
+		// the same with a rolled-back transaction overwritten at the same offsets, and a LiteFS checkpoint
+		{{Op: "rtx", Writes: map[uint32]uint64{1: 1, 2: 2, 3: 3}, NewSize: 3, ToWAL: true},
+			{Op: "wtx", Frames: [][2]uint64{{4, 14}, {2, 12}}, Aborted: [][2]uint64{{3, 93}, {4, 94}}, NewSize: 4},
+			{Op: "lfsckpt"},
+			{Op: "wtx", Frames: [][2]uint64{{3, 33}}, NewSize: 4, Split: true},
+			{Op: "appckpt", CkptMode: 1},
+			{Op: "wtx", Frames: [][2]uint64{{2, 42}, {2, 43}}, NewSize: 2}},
+	}
+	for si, script := range scripts {
+		for _, be := range []bool{false, true} {
+			cfg := hist.Config{PageSize: 512, Regime: 0, AllowWAL: true, BigEndian: be}
+			h, err := hist.New(c, c.Rng.Fork(), cfg)
+			if err != nil {
+				if h != nil {
+					h.Close()
+				}
+				return fmt.Errorf("history setup: %w", err)
+			}
+			for _, st := range script {
+				h.Exec(st)
+			}
+			h.CheckCrash(c, "C03")
+			h.CheckCapture(c, "C03", map[string]bool{"wtx": true, "lockonly": true, "appckpt": true, "lfsckpt": true, "torollback": true, "rtx": true})
+			cf.Add(h.CoqCase(), map[string]any{"kind": "history", "page_size": 512, "script": si, "big_endian_wal": be, "steps": h.Steps})
+			h.Close()
+		}
+	}
 	nHist := c.Pick(18, 160)
 	for i := 0; i < nHist; i++ {
 		cfg := cfgs[i%len(cfgs)]
